@@ -54,7 +54,7 @@ def _and(a: ast.expr, b: ast.expr) -> ast.expr:
 
 def exists_predicate(fn: ast.FunctionDef, param: str | None = None):
     """(element variable, [disjunct expr, ...]) or None"""
-    body = [s for s in fn.body if not (isinstance(s, ast.Expr) and isinstance(s.value, ast.Constant))]
+    body = [s for s in fn.body if not isinstance(s, ast.Expr)]      # docstring, logging calls: no influence on the value
     # through one local: `x = any(...)` / `return x`
     if len(body) == 2 and isinstance(body[0], ast.Assign) and isinstance(body[1], ast.Return) and isinstance(body[1].value, ast.Name) and norm(body[0].targets[0]) == body[1].value.id:
         body = [ast.Return(value=body[0].value)]
